@@ -153,6 +153,15 @@ func (s *verifStream) QUICStream() *quic.Stream                       { return n
 // a handler would, or already before WriteHeader when early) and flushed. It returns the decoded field lists of the HEADERS frame and
 // of the trailer HEADERS frame (nil if none was written).
 func VerifEncodeResponse(status int, hdr http.Header, body []byte, trailerVals http.Header, early bool) (fields, trailers []qpack.HeaderField, err error) {
+	fields, trailers, _, _, err = VerifEncodeResponseSnap(status, hdr, body, trailerVals, early)
+	return fields, trailers, err
+}
+
+// VerifEncodeResponseSnap is VerifEncodeResponse that also returns the writer's header map as it
+// was when the HEADERS frame was serialised (snap1: after WriteHeader's Date / Content-Length
+// handling and content-type sniffing) and when the trailers were flushed (snap2). These maps are
+// the abstract response of the H3Writers model.
+func VerifEncodeResponseSnap(status int, hdr http.Header, body []byte, trailerVals http.Header, early bool) (fields, trailers []qpack.HeaderField, snap1, snap2 http.Header, err error) {
 	s := &verifStream{}
 	str := newStream(s, nil, nil, func(io.Reader, *headersFrame) error { return nil }, nil)
 	rw := newResponseWriter(str, nil, false, slog.New(slog.NewTextHandler(io.Discard, nil)))
@@ -167,51 +176,75 @@ func VerifEncodeResponse(status int, hdr http.Header, body []byte, trailerVals h
 	rw.WriteHeader(status)
 	if len(body) > 0 {
 		if _, err := rw.Write(body); err != nil {
-			return nil, nil, fmt.Errorf("verif: body write: %w", err)
+			return nil, nil, nil, nil, fmt.Errorf("verif: body write: %w", err)
 		}
 	}
 	rw.Flush()
+	snap1 = rw.header.Clone()
 	fields, err = verifDecodeHeadersFrame(&s.buf)
 	if err != nil {
-		return nil, nil, err
+		return nil, nil, snap1, nil, err
 	}
 	// skip the DATA frame, if any
 	if len(body) > 0 {
 		fr, err := (&frameParser{r: &s.buf}).ParseNext(nil)
 		if err != nil {
-			return fields, nil, fmt.Errorf("verif: data frame: %w", err)
+			return fields, nil, snap1, nil, fmt.Errorf("verif: data frame: %w", err)
 		}
 		df, ok := fr.(*dataFrame)
 		if !ok {
-			return fields, nil, fmt.Errorf("verif: expected DATA frame, got %T", fr)
+			return fields, nil, snap1, nil, fmt.Errorf("verif: expected DATA frame, got %T", fr)
 		}
 		s.buf.Next(int(df.Length))
 	}
 	for k, vv := range trailerVals {
 		rw.Header()[k] = append([]string(nil), vv...)
 	}
+	snap2 = rw.header.Clone()
 	rw.flushTrailers()
 	if s.buf.Len() > 0 {
 		trailers, err = verifDecodeHeadersFrame(&s.buf)
 		if err != nil {
-			return fields, nil, err
+			return fields, nil, snap1, snap2, fmt.Errorf("verif: trailers: %w", err)
 		}
 		if trailers == nil {
 			trailers = []qpack.HeaderField{}
 		}
 	}
-	return fields, trailers, nil
+	return fields, trailers, snap1, snap2, nil
 }
 
-// VerifEncodeRequestTrailers drives writeTrailers as WriteRequestTrailer does.
+// VerifEncodeRequestTrailers drives the exported WriteRequestTrailer (the method the client calls
+// after the body). written = something was put on the stream.
 func VerifEncodeRequestTrailers(tr http.Header) ([]qpack.HeaderField, bool, error) {
 	buf := &bytes.Buffer{}
-	written, err := writeTrailers(buf, tr, quic.StreamID(0), nil)
-	if err != nil || !written {
-		return nil, written, err
+	if err := newRequestWriter().WriteRequestTrailer(buf, &http.Request{Trailer: tr}, quic.StreamID(0), nil); err != nil {
+		return nil, buf.Len() > 0, err
+	}
+	if buf.Len() == 0 {
+		return nil, false, nil
 	}
 	fs, err := verifDecodeHeadersFrame(buf)
 	return fs, true, err
+}
+
+// VerifWReq is the abstract request of the H3Writers model: what encodeHeaders reads from the
+// http.Request, after the steps that live outside /repo (PunycodeHostPort, ValidHostHeader,
+// URL.RequestURI).
+type VerifWReq struct {
+	Method, Scheme, Host string
+	HostOK             bool
+	URI, Proto         string
+	CL                 int64
+}
+
+func VerifAbstractRequest(req *http.Request) VerifWReq {
+	host := req.Host
+	if host == "" {
+		host = req.URL.Host
+	}
+	h, err := httpguts.PunycodeHostPort(host)
+	return VerifWReq{req.Method, req.URL.Scheme, h, err == nil && httpguts.ValidHostHeader(h), req.URL.RequestURI(), req.Proto, actualContentLength(req)}
 }
 
 // ---- tables for coq/Gen/Params.v ----
@@ -271,6 +304,8 @@ func VerifTables() [][2]any {
 		{"h3MethodConnect", `string := "` + hex.EncodeToString([]byte(http.MethodConnect)) + `"%string`},
 		{"h3TrailerProbes", "list (string * bool) := [" + strings.Join(probes, "; ") + "]"},
 		{"h3FieldOverhead", int64(verifFieldOverhead())},
+		{"h3DefaultUserAgent", `string := "` + hex.EncodeToString([]byte(defaultUserAgent)) + `"%string`},
+		{"h3TrailerPrefix", `string := "` + hex.EncodeToString([]byte(http.TrailerPrefix)) + `"%string`},
 	}
 }
 
